@@ -101,7 +101,7 @@ def build_tree(st, fl, derived):
 # ---------------------------------------------------------------------------------------------------
 def canon_of(tree, fl):
     def walk(nodes):
-        return [[fl.data_index(n.data), fl.model_did(n.data_id), fl.kind_id(n), walk(n.children)] for n in nodes]
+        return [[fl.data_index(n.data), fl.model_did_of_node(n), fl.kind_id(n), walk(n.children)] for n in nodes]
     return walk(tree.children)
 
 
@@ -140,7 +140,7 @@ def decode_saved(text, fl):
             if "str" in full:
                 e["d"] = fl.data_index(full["str"])
             elif "name" in full:
-                e["d"] = fl.data_index(Item(full["name"], full["rank"]))
+                e["d"] = fl.index_of_fields(full["name"], full.get("rank"))
             else:
                 e["d"] = -1
             if "data_id" in full:
@@ -231,7 +231,7 @@ def option_grid(fl, quick, salt):
             full.append((km, vm, comp, "path"))
         full.append((km, vm, "off", "stream"))
         full.append((km, vm, "off", "stream_ascii"))   # a caller-opened file object with a narrow encoding
-    full = [f + (d,) for f in full for d in ((False, True) if not fl.is_str or True else (False,))]
+    full = [f + (d,) for f in full for d in ((False,) if hasattr(fl, "lib_mappers") else (False, True))]
     if not quick:
         return full
     n = len(full)
@@ -307,9 +307,17 @@ def obs_serial(c: Ctx, enc, *, props, quick=True, salt=0, tmpdir=None):
                 dl = c.b.tree.to_dict_list(mapper=ser)
                 if via == "json":
                     dl = json.loads(json.dumps(dl))
+                keep = json.dumps(dl, sort_keys=True, default=str)
                 t2 = Tree.from_dict(dl, mapper=deser)
                 if type(t2) is not Tree:
                     raise TypeError("not a Tree")
+                if not relocate and json.dumps(dl, sort_keys=True, default=str) != keep:
+                    # the caller's structure is input, not scratch space (the relocating deserialiser edits its
+                    # items on purpose: "mapper may add item['data_id']")
+                    raise TypeError("from_dict() modified the list-of-dicts it was given")
+                t3 = Tree.from_dict(dl, mapper=deser)      # ... and can be used again
+                if canon_of(t3, fl) != canon_of(t2, fl):
+                    raise TypeError("a second from_dict() of the same structure gives a different tree")
                 return t2
             out.append({"q": "from_dict", "a": {"via": via}, "r": call(back, lambda t2: canon_of(t2, fl))})
         if st["n"] > 0:
@@ -328,7 +336,9 @@ def obs_serial(c: Ctx, enc, *, props, quick=True, salt=0, tmpdir=None):
             km_arg = KEY_MAPS[km_mode]
             vm_arg = value_map_for(fl, st, vm_mode)
             kw = {"key_map": km_arg, "value_map": vm_arg, "meta": dict(USER_META)}
-            if not derived and mapper_needed:
+            if hasattr(fl, "lib_mappers"):
+                kw["mapper"] = fl.lib_mappers[0]
+            elif not derived and mapper_needed:
                 kw["mapper"] = ser_mapper if salt % 2 else (lambda node, data: ser_mapper(node, dict(data)))
             load_kw = {}
             # string data under explicit (or callback-made) ids is stored as {"str":, "data_id":} entries, which the
@@ -336,7 +346,9 @@ def obs_serial(c: Ctx, enc, *, props, quick=True, salt=0, tmpdir=None):
             dict_entries = fl.calc_data_id() is not None or \
                 any(st["did"][i] != fl.model_default_did(st["dat"][i]) for i in range(st["n"]))
             need_load_mapper = mapper_needed or (dict_entries and salt % 2 == 0)
-            if not derived and need_load_mapper:
+            if hasattr(fl, "lib_mappers"):
+                load_kw["mapper"] = fl.lib_mappers[1]
+            elif not derived and need_load_mapper:
                 load_kw["mapper"] = deser_mapper
             cls = tree_class(fl, derived)
             a = {"key_map": km_mode, "value_map": vm_mode, "compression": comp, "target": target, "derived": derived,
@@ -392,7 +404,7 @@ def obs_serial(c: Ctx, enc, *, props, quick=True, salt=0, tmpdir=None):
                     t2, meta = res
                     return {"canon": canon_of(t2, fl), "cls": type(t2) is cls,
                             "meta_ok": all(meta.get(k) == v for k, v in USER_META.items()),
-                            "src_same": core.project(b)["st"] == before}
+                            "src_same": core.project(b)["st"] == before and fl.content_intact()}
                 if saved["s"] == "ok":
                     out.append({"q": "roundtrip", "a": a, "r": call(do_load, norm_load)})
                 elif a.get("partial"):
@@ -405,7 +417,7 @@ def obs_serial(c: Ctx, enc, *, props, quick=True, salt=0, tmpdir=None):
                 except OSError:
                     pass
     # ------------------------------------------------------------------ C12 reading side
-    if "C12" in props:
+    if "C12" in props and not hasattr(fl, "lib_mappers"):
         cls = tree_class(fl, False)
         # documents holding only strings (bare, or as {"str":[, "data_id":][, "kind":]} entries) need no callback
         load_kw = {} if fl.is_str and salt % 2 else {"mapper": deser_mapper}
